@@ -284,13 +284,11 @@ func (con *Connection) plainMessageBytes(max int) int {
 		return n
 	}
 
-	// Look for the end of the header – it may have started in bytes handed over before
-	seen := con.plainHeader
-	if len(seen) > 3 {
-		seen = seen[len(seen)-3:]
-	}
-	if i := bytes.Index(append(append([]byte{}, seen...), con.plain[:n]...), []byte("\r\n\r\n")); i >= 0 {
-		n = i + 4 - len(seen)
+	// Look for the end of the header – it may have started in bytes handed over before.
+	// The header ends with an empty line; like the http server does, a line is taken
+	// to end with "\n" or "\r\n".
+	if i := con.plainHeaderEnd(con.plain[:n]); i >= 0 {
+		n = i
 		header := append(con.plainHeader, con.plain[:n]...)
 		con.plainHeader = nil
 		if req, err := http.ReadRequest(bufio.NewReader(bytes.NewReader(header))); err == nil {
@@ -311,6 +309,36 @@ func (con *Connection) plainMessageBytes(max int) int {
 	}
 
 	return n
+}
+
+// plainHeaderEnd returns the number of bytes of b up to and including the empty line
+// which ends the header con.plainHeader + b, or -1 when it does not end in b.
+func (con *Connection) plainHeaderEnd(b []byte) int {
+	// Is the position before b the beginning of a line (after an optional "\r")?
+	lineStart := false
+	if h := con.plainHeader; len(h) > 0 {
+		if h[len(h)-1] == '\n' {
+			lineStart = true
+		} else if h[len(h)-1] == '\r' && len(h) > 1 && h[len(h)-2] == '\n' {
+			lineStart = true
+		}
+	}
+	afterCR := len(con.plainHeader) > 0 && con.plainHeader[len(con.plainHeader)-1] == '\r'
+
+	for i, c := range b {
+		switch {
+		case c == '\n' && lineStart:
+			return i + 1
+		case c == '\n':
+			lineStart, afterCR = true, false
+		case c == '\r' && lineStart && !afterCR:
+			afterCR = true
+		default:
+			lineStart, afterCR = false, false
+		}
+	}
+
+	return -1
 }
 
 // Close closes the connection and deletes the related session from the context.
